@@ -272,7 +272,7 @@ def PreOK (strat : Slice → M (Option Nat)) (pre : Option Pre) : Prop :=
   ∀ p, pre = some p → p.strat = strat
 
 /-- `&haystack[a..]` -/
-def Slice.sub (s : Slice) (a : Nat) : Slice := ⟨s.mem, s.off + a, s.len - a⟩
+def tailFrom (s : Slice) (a : Nat) : Slice := ⟨s.mem, s.off + a, s.len - a⟩
 
 /-- What the loops need from the prefilter strategy, relative to an abstract loop invariant
 `Inv pos` ("the search may resume at `pos`") and an abstract `Done` ("answering `None` is
@@ -280,7 +280,7 @@ right"): run on `&haystack[a..]` it returns normally; `None` justifies `Done`; `
 justifies advancing by `c`. -/
 def StratOK (haystack : Slice) (strat : Slice → M (Option Nat)) (Inv : Nat → Prop)
     (Done : Prop) : Prop :=
-  ∀ a, a ≤ haystack.len → ∀ c, ∃ r c', strat (Slice.sub haystack a) c = .ok r c' ∧
+  ∀ a, a ≤ haystack.len → ∀ c, ∃ r c', strat (tailFrom haystack a) c = .ok r c' ∧
     (r = none → Inv a → Done) ∧ (∀ cnd, r = some cnd → Inv a → Inv (a + cnd))
 
 theorem prefilterStep_spec (fn : String) (needle haystack : Slice)
@@ -315,11 +315,11 @@ theorem prefilterStep_spec (fn : String) (needle haystack : Slice)
       cases h
       exact ⟨fun h => h, hpos, fun _ => rfl⟩
     | true =>
-      have hd : haystack.drop (fn ++ ": &haystack[pos..]") pos = pure (Slice.sub haystack pos) := by
-        simp [Slice.drop, Slice.sub, show pos ≤ haystack.len by omega]
+      have hd : haystack.drop (fn ++ ": &haystack[pos..]") pos = pure (tailFrom haystack pos) := by
+        simp [Slice.drop, tailFrom, show pos ≤ haystack.len by omega]
       obtain ⟨r, c1, er, hr1, hr2⟩ := hstrat (by simp) pos (by omega) c
-      have ef : Pre.find { p with state := st } (Slice.sub haystack pos) c =
-          .ok (r, { p with state := st.update (r.getD (Slice.sub haystack pos).len) })
+      have ef : Pre.find { p with state := st } (tailFrom haystack pos) c =
+          .ok (r, { p with state := st.update (r.getD (tailFrom haystack pos).len) })
             { c1 with steps := c1.steps + 1 } := by
         simp only [Pre.find, hs, bind_ok er, M.bind_run, tick_run, M.pure_run]
       simp only [if_true, hd, pure_bind', bind_ok ef]
